@@ -9,3 +9,5 @@ for P in "$@"; do
   echo "$OUT" | grep -E '^violation:|no longer checks|mismatch' | head -4
 done
 git -C /repo checkout -- .
+# leave the generated files in the state of the clean tree
+/verif/.bin/go2v -repo /repo -out /verif/coq/gen >/dev/null 2>&1
